@@ -15,7 +15,7 @@ import (
 )
 
 func init() {
-	propertyRules["C19"] = []ruleFn{ruleCodecSym, ruleGobExported, ruleDecodeErr, ruleTypeSwitch, ruleHashInput, ruleCtor, ruleSig, ruleFixedRead}
+	propertyRules["C19"] = []ruleFn{ruleCodecSym, ruleGobExported, ruleDecodeErr, ruleTypeSwitch, ruleHashInput, ruleCtor, ruleSig, ruleFixedRead, ruleTypedNil}
 	propertyExplain["C19"] = "A-CODEC-SYM: for every type with EncodeBinary/DecodeBinary each field is read by the encoder on every successful path (or is a reasoned derived/cache field) and assigned by the decoder on every successful path; A-GOB-EXPORTED: structs handed to gob have only exported fields; G-DECODE-ERR: no decoder drops an error; A-TYPE-SWITCH: the recovery message packs every payload kind the library adds and each Get* reconstruction uses the kind and body type of the list it reads, copying every body field; A-HASH-INPUT: Hash() is Hash256 of the unsigned encoding (which covers every field except the cache) and block hash/sign/verify all feed GetHashData, which does not read the signature; P-CTOR: constructors use every named parameter in its role; P-SIG: Sign and Verify hash the message with the same function; Merkle parents hash left‖right. Collision resistance, ECDSA soundness and gob's robustness on arbitrary bytes are not decided."
 }
 
@@ -1356,6 +1356,91 @@ func ruleFixedRead(c *RC) *RuleResult {
 	}
 	if n == 0 {
 		r.unresolved("fixed-width read of a decoded byte field")
+	}
+	return r
+}
+
+// N-TYPED-NIL: a function whose result is an interface returns a variable of a concrete pointer type that may hold nil:
+// the caller's `!= nil` test passes and the first method call dereferences nil. (`var p *Payload; if … { p = … }; return p`
+// from a function declared to return dbft.ConsensusPayload.)
+func ruleTypedNil(c *RC) *RuleResult {
+	r := &RuleResult{Rule: "N-TYPED-NIL", Kind: "GUARD", Doc: "no function with an interface result returns a possibly-nil variable of a concrete pointer type (a typed nil passes the caller's nil test)"}
+	n := 0
+	for _, fn := range c.Prog.sortedFuncs() {
+		if fn.Pkg.PkgPath != consPath && fn.Pkg.PkgPath != modPath {
+			continue
+		}
+		sig := fn.Obj.Type().(*types.Signature)
+		info := fn.Pkg.TypesInfo
+		for ri := 0; ri < sig.Results().Len(); ri++ {
+			if !types.IsInterface(sig.Results().At(ri).Type()) || namedName(sig.Results().At(ri).Type()) == "error" {
+				continue
+			}
+			ast.Inspect(fn.Decl.Body, func(nd ast.Node) bool {
+				if _, ok := nd.(*ast.FuncLit); ok {
+					return false
+				}
+				rs, ok := nd.(*ast.ReturnStmt)
+				if !ok || ri >= len(rs.Results) {
+					return true
+				}
+				id, ok := ast.Unparen(rs.Results[ri]).(*ast.Ident)
+				if !ok {
+					return true
+				}
+				v, ok := info.Uses[id].(*types.Var)
+				if !ok {
+					return true
+				}
+				if _, isPtr := v.Type().Underlying().(*types.Pointer); !isPtr {
+					return true
+				}
+				n++
+				r.Sites++
+				// may the variable be nil here? declared without a value, or assigned nil somewhere, and this return is
+				// not under a `v != nil` test
+				mayNil := false
+				ast.Inspect(fn.Decl.Body, func(m ast.Node) bool {
+					switch x := m.(type) {
+					case *ast.ValueSpec:
+						for i, nm := range x.Names {
+							if info.Defs[nm] == v && i >= len(x.Values) {
+								mayNil = true
+							}
+						}
+					case *ast.AssignStmt:
+						for i, l := range x.Lhs {
+							if lid, ok := ast.Unparen(l).(*ast.Ident); ok && (info.Uses[lid] == v || info.Defs[lid] == v) && i < len(x.Rhs) {
+								if rid, ok := ast.Unparen(x.Rhs[i]).(*ast.Ident); ok && rid.Name == "nil" {
+									mayNil = true
+								}
+							}
+						}
+					}
+					return true
+				})
+				guarded := false
+				for _, enc := range enclosingConds(fn, rs) {
+					if ifs, ok := enc.(*ast.IfStmt); ok {
+						if be, ok := ast.Unparen(ifs.Cond).(*ast.BinaryExpr); ok && be.Op == token.NEQ {
+							if xid, ok := ast.Unparen(be.X).(*ast.Ident); ok && info.Uses[xid] == v {
+								guarded = true
+							}
+						}
+					}
+				}
+				if mayNil && !guarded {
+					r.fail(fn.Name+"/typed-nil:"+v.Name(), c.Prog.Pos(rs), fmt.Sprintf("%s returns the %s variable %s, which may be nil, as %s: the caller's nil test passes and the first method call panics", fn.Name, v.Type(), v.Name(), sig.Results().At(ri).Type()))
+				} else {
+					r.ok(fmt.Sprintf("%s: returned pointer %s is never nil at this return", fn.Name, v.Name()))
+				}
+				return true
+			})
+		}
+	}
+	if n == 0 {
+		r.note("no function returns a pointer-typed local as an interface on this tree")
+		r.ok("nothing to check")
 	}
 	return r
 }
